@@ -95,6 +95,8 @@ impl SegmentIter {
             return Ok(Some(commits));
         }
 
+        #[cfg(feature = "verif-hooks")]
+        crate::verif::pause("segiter:between-cache-and-pool");
         let bucket_segment_id = self.bucket_segment_id;
         let offsets = mem::take(&mut self.offsets);
 
